@@ -452,3 +452,45 @@ Definition tucker_gate (c : container) (req : option (list Z)) : res bool :=
 (* the rule before 1ad6e15 (kept as a labelled foil): the truth value of the request as passed *)
 Definition tucker_gate_before_1ad6e15 (c : container) (req : option (list Z)) : res bool :=
   match req with None => Ok false | Some l => request_truth c l end.
+
+(* ------------------------------------------------------------------ partial_tucker's main loop (HOI), no longer an arbitrary function
+     for iteration in range(n_iter_max):
+         if mask is not None: tensor = tensor * mask + multi_mode_dot(core, factors, modes) * (1 - mask)       -- pre: bookkeeping only
+         for index, mode in enumerate(modes):
+             ... factors[index] = eigenvecs                                                                      -- upd: writes position `index`
+         core = multi_mode_dot(tensor, factors, modes=modes, transpose=True)                                    -- corefn
+         rec_errors.append(...)                                                                                  -- post: bookkeeping only
+         if iteration > 1 and tol and |variation| < tol: break                                                   -- stop
+   The state carries the core, the factor list AS HANDED IN (one entry per entry of `modes`: tucker hands in the free factors only) and a
+   bookkeeping component X (imputed tensor, norm, error history).  upd / corefn / pre / post / stop are arbitrary functions of the whole
+   state; what is fixed is WHERE the loop writes: position index = 0, 1, .. of the list, once per entry of `modes`, never its length. *)
+Section PartialTucker.
+  Context {F X : Type}.
+  Record pts := mkpts { ptc : tensor F; ptf : list (@matrix F); ptx : X }.
+  Variable pre : nat -> pts -> X.
+  Variable upd : nat -> nat -> nat -> pts -> @matrix F.
+  Variable corefn : nat -> list nat -> pts -> tensor F.
+  Variable post : nat -> pts -> X.
+  Variable stop : nat -> pts -> bool.
+
+  Definition pt_write (it : nat) (s : pts) (p : nat * nat) : pts :=
+    mkpts (ptc s) (set_nth (fst p) (upd it (fst p) (snd p) s) (ptf s)) (ptx s).
+  Fixpoint pt_sweep (it index : nat) (modes : list nat) (s : pts) : pts :=
+    match modes with [] => s | mode :: r => pt_sweep it (S index) r (pt_write it s (index, mode)) end.
+  Fixpoint pt_iterate (budget it : nat) (modes : list nat) (s : pts) : pts :=
+    match budget with
+    | 0 => s
+    | S b => let s0 := mkpts (ptc s) (ptf s) (pre it s) in
+             let s1 := pt_sweep it 0 modes s0 in
+             let s2 := mkpts (corefn it modes s1) (ptf s1) (ptx s1) in
+             let s3 := mkpts (ptc s2) (ptf s2) (post it s2) in
+             if stop it s3 then s3 else pt_iterate b (S it) modes s3
+    end.
+  (* partial_tucker(tensor, rank, modes, init=(c, free), n_iter_max=budget) for a user-supplied init; x0: the bookkeeping at loop entry *)
+  Definition partial_tucker_model (x0 : tensor F -> list nat -> list (@matrix F) -> X) (budget : nat) (c : tensor F) (modes : list nat)
+      (free : list (@matrix F)) : tensor F * list (@matrix F) :=
+    let s := pt_iterate budget 0 modes (mkpts c free (x0 c modes free)) in (ptc s, ptf s).
+  (* `for index, mode in enumerate(modes)` as the enumerated list *)
+  Definition enumerate_from (i : nat) (l : list nat) : list (nat * nat) := combine (seq i (length l)) l.
+End PartialTucker.
+Arguments pts : clear implicits.
